@@ -91,11 +91,17 @@ def grammar_labels(which):
         if not isinstance(fn, ast.FunctionDef):
             continue
         for n in ast.walk(fn):
-            if isinstance(n, ast.Call) and getattr(n.func, 'id', None) == 'CombinatorResult':
+            if isinstance(n, ast.Call):
+                # a result built directly (keywords op_string / op_symbol) or through a helper that takes the label and the symbol as two consecutive
+                # string literals (e.g. _make_result(cat, "fa", ">"))
                 kw = {k.arg: k.value for k in n.keywords}
                 s1, s2 = kw.get('op_string'), kw.get('op_symbol')
-                if isinstance(s1, ast.Constant) and isinstance(s2, ast.Constant):
+                if isinstance(s1, ast.Constant) and isinstance(s2, ast.Constant) and isinstance(s1.value, str) and isinstance(s2.value, str):
                     binary.add((s1.value, s2.value))
+                for a, b in zip(n.args, n.args[1:]):
+                    if isinstance(a, ast.Constant) and isinstance(b, ast.Constant) and isinstance(a.value, str) and isinstance(b.value, str) \
+                            and getattr(n.func, 'id', '') not in ('Unification', 'print') and not isinstance(n.func, ast.Attribute):
+                        binary.add((a.value, b.value))
         if fn.name == '_unary_rule_symbol':
             for n in ast.walk(fn):
                 if isinstance(n, ast.Return) and isinstance(n.value, ast.Constant):
